@@ -21,6 +21,9 @@ History format (JSON):
       via default : expand(abbr) with no configuration at all
   D = JSON config; option value "@tabstop" for 'output.field' stands for a tabstop-printing callback; key "@global"
       holds the global_config passed along with this dict (third argument of expand / second of Config).
+  optional "globals": [G, ...]  caller-owned global_config dicts, each built ONCE per process; a dict spec with
+      "@gref": k passes THAT object (instead of a private "@global") with every call made through the spec, so one
+      global configuration is shared by calls of differing syntaxes and types, as an editor plugin does.
 """
 import copy
 import gc
@@ -48,14 +51,18 @@ def build_dict(spec, caches, with_cache=True):
             if v == '@tabstop':
                 opts[k] = _field
     d.pop('@global', None)
+    d.pop('@gref', None)
     c = d.pop('cache', None)
     if c is not None and with_cache:
         d['cache'] = caches[c]
     return d
 
 
-def build_global(spec):
-    """the global_config argument of expand(abbr, config, global_config) / Config(config, global_config)"""
+def build_global(spec, h=None):
+    """the global_config argument of expand(abbr, config, global_config) / Config(config, global_config): a freshly
+    built object equal to the private "@global" of the spec or to the shared global "@gref" names"""
+    if spec.get('@gref') is not None:
+        return copy.deepcopy(h['globals'][spec['@gref']])
     g = spec.get('@global')
     return copy.deepcopy(g) if g is not None else None
 
@@ -293,7 +300,8 @@ def run_history(h):
 def _run_calls(h, res, base_mod):
     caches = [dict() for _ in range(h.get('ncaches', 0))]
     dicts = [build_dict(s, caches) for s in h['dicts']]
-    globs = [build_global(s) for s in h['dicts']]
+    shared = [copy.deepcopy(g) for g in h.get('globals', [])]   # caller-owned, one object each for the whole history
+    globs = [shared[s['@gref']] if s.get('@gref') is not None else build_global(s) for s in h['dicts']]
     objs = [mk_config(dicts[i], globs[i]) for i in h.get('objs', [])]
     prev_mod = base_mod
     seq = list(h['calls']) + [h['probe']]
@@ -318,6 +326,9 @@ def _run_calls(h, res, base_mod):
             watched = []
         if g is not None:
             watched.append(('global_config', c['d'], g))
+        for gk, sg in enumerate(shared):   # every caller-owned shared global_config, passed with this call or not
+            if sg is not g:
+                watched.append(('shared_global_config', gk, sg))
         before = [copy.deepcopy(strip(w[2])) for w in watched]
         obj_before = [fp(config_view(o)) for o in objs]
         out, kind, stage = do_call(c['abbr'], arg, use_default=(via == 'default'), g=g)
@@ -371,7 +382,7 @@ def run_single(h, c, variant):
     else:
         di = h['objs'][c['d']] if via == 'obj' else c['d']
         d = build_dict(h['dicts'][di], caches, with_cache=(variant == 'cache' and via != 'nocache'))
-        g = build_global(h['dicts'][di])
+        g = build_global(h['dicts'][di], h)
         arg = mk_config(d, g) if via == 'obj' else d
         out, kind, stage = do_call(c['abbr'], arg, g=g)
     return {'out': out, 'kind': kind, 'stage': stage}
@@ -388,7 +399,7 @@ def run_tables(h):
             continue
         d = build_dict(spec, [], with_cache=False)
         try:
-            out.append(table_fp(convert_snippets(mk_config(d, build_global(spec)).snippets)))
+            out.append(table_fp(convert_snippets(mk_config(d, build_global(spec, h)).snippets)))
         except Exception:
             out.append(None)
     return out
